@@ -238,7 +238,14 @@ func (e *Eng) encodeFunction(fn *ssa.Function, con *Contract) (res *FnResult) {
 				}
 			}
 			sort.Strings(hyps)
-			parts := splitConj(en.E)
+			parts := splitConjMacro(en.E, func(name string) *SpecFunc {
+				// (only predicates of the function's own package: their bodies
+				// resolve names in that package)
+				if sf := e.specFunc(pkgOf(f.fn), name); sf != nil && pkgOf(f.fn) != nil && sf.Pkg == pkgOf(f.fn).Path() {
+					return sf
+				}
+				return nil
+			})
 			for pi, part := range parts {
 				pl := label
 				if len(parts) > 1 {
@@ -264,6 +271,15 @@ func (e *Eng) encodeFunction(fn *ssa.Function, con *Contract) (res *FnResult) {
 				}
 				c.oblige(Item{Guard: r.guard, Formula: formula, Name: res.Key + "/ensures:" + pl + suffix, Class: "ensures",
 					Pos: f.pos(r.pos), Text: en.Text, Replay: f.replayInfo(r.results, cur), Watch: watch, Hyps: hyps})
+			}
+		}
+		// a function that may modify everything still leaves global mutexes
+		// as it found them, unless its contract names their lock ghost
+		if (!con.HasMod || con.ModAll) && len(con.Modifies) == 0 {
+			cells, names := f.globalLockCells(cur)
+			for i, a := range cells {
+				c.oblige(Item{Guard: r.guard, Formula: eq(f.loadLeaf(cur, SBool, a), f.loadLeaf(f.st0, SBool, a)), Name: res.Key + "/lock-balanced:" + names[i] + suffix, Class: "frame",
+					Pos: f.pos(r.pos), Text: "held(" + names[i] + ") is as at entry (the contract does not name it)"})
 			}
 		}
 		// (maps, like cells, are covered write by write: see writeObligations)
